@@ -13,7 +13,51 @@ SYMS = ['Z2', 'U1', 'Z2Z2', 'U1U1', 'Z4']
 MODES = {'auto': 'MAuto', 'fused': 'MFused', 'blockwise': 'MBlockwise'}
 
 
+def rand_subsector_pair(rng, sr, sym, cplx):
+    """>=2 contracted axes with identical tables on both sides, free legs with one
+    charge each (or none), and blocks removed independently from a and b: inside
+    one combined contracted charge the two operands store different joint
+    sub-sectors, which the fused path has to intersect before it concatenates."""
+    ncon = rng.choice([2, 2, 3])
+    fa, fb = rng.choice([0, 1]), rng.choice([0, 1])
+    nda, ndb = ncon + fa, ncon + fb
+    axa = rng.sample(range(nda), ncon)
+    axb = rng.sample(range(ndb), ncon)
+    one = lambda: dict([rng.choice(sorted(gen.rand_chargemap(rng, sym, maxcharges=3, maxsize=2).items()))])
+    cma = [one() for _ in range(nda)]
+    cmb = [one() for _ in range(ndb)]
+    dua = [rng.random() < 0.5 for _ in range(nda)]
+    dub = [rng.random() < 0.5 for _ in range(ndb)]
+    same_size = rng.random() < 0.7
+    for i, j in zip(axa, axb):
+        cm = gen.rand_chargemap(rng, sym, maxcharges=3, maxsize=2)
+        while len(cm) < 2:
+            cm = gen.rand_chargemap(rng, sym, maxcharges=3, maxsize=2)
+        if same_size:
+            d = rng.choice([1, 1, 2])
+            cm = {c: d for c in cm}
+        cma[i] = cm; cmb[j] = dict(cm); dub[j] = not dua[i]
+    a = gen.rand_array(rng, sr, sym, chargemaps=cma, duals=dua, cplx=cplx, lo=-2, hi=2, keep=1.0, maxsize=2)
+    sa = rng.choice(list(a.blocks)) if a.blocks else None
+    qb = None
+    if sa is not None:
+        sb = [rng.choice(sorted(cm)) for cm in cmb]
+        for i, j in zip(axa, axb):
+            sb[j] = sa[i]
+        qb = refsym.csum(sym, [refsym.signed(sym, c, d) for c, d in zip(sb, dub)])
+    b = gen.rand_array(rng, sr, sym, chargemaps=cmb, duals=dub, charge=qb, cplx=cplx, lo=-2, hi=2, keep=1.0, maxsize=2)
+    # independent removals, at least one on each side when possible
+    for x in (a, b):
+        ks = sorted(x.blocks)
+        if len(ks) >= 2:
+            for kk in rng.sample(ks, rng.randint(1, max(1, len(ks) // 2))):
+                del x.blocks[kk]
+    return a, b, axa, axb
+
+
 def rand_pair(rng, sr, sym, cplx, maxnd=4):
+    if rng.random() < 0.2:
+        return rand_subsector_pair(rng, sr, sym, cplx)
     nda, ndb = rng.choice([0, 1, 2, 2, 3, 3, 4]), rng.choice([0, 1, 2, 2, 3, 3, 4])
     ncon = rng.randint(0 if rng.random() < 0.2 else min(1, nda, ndb), min(nda, ndb))
     axa = rng.sample(range(nda), ncon)
@@ -87,7 +131,7 @@ def run(ctx):
     rng = ctx.rng
     n_cases = 1500 if ctx.thorough else 260
     exprs, meta, found = [], [], []
-    stats = {'aligned_pairs>=2': 0, 'no_aligned': 0, 'scalar': 0, 'outer': 0, 'pruned': 0, 'neg_axes': 0, 'complex': 0}
+    stats = {'subsector_mismatch': 0, 'aligned_pairs>=2': 0, 'no_aligned': 0, 'scalar': 0, 'outer': 0, 'pruned': 0, 'neg_axes': 0, 'complex': 0}
     for k in range(n_cases):
         sym = SYMS[k % len(SYMS)]
         cplx = rng.random() < 0.3
@@ -118,6 +162,8 @@ def run(ctx):
                               'axes': [axa_in, axb_in], **bad,
                               'replay': rl.record('tensordot', {'a': a, 'b': b}, {'symmetry': sym, 'mode': mode, 'axes': [axa_in, axb_in]})})
             npairs = sum(1 for sa in a.blocks for sb in b.blocks if [sa[i] for i in axa] == [sb[j] for j in axb])
+            if mode == 'fused' and len(axa) >= 2 and {tuple(sa[i] for i in axa) for sa in a.blocks} != {tuple(sb[j] for j in axb) for sb in b.blocks}:
+                stats['subsector_mismatch'] += 1
             if npairs > len(c.blocks):
                 stats['aligned_pairs>=2'] += 1
             if not c.blocks:
@@ -162,9 +208,15 @@ def run(ctx):
         # scalar return path
         if a.ndim == b.ndim == len(axa):
             ctx.count()
-            s = sr.tensordot(a, b, axes=(axa_in, axb_in))
             want = np.tensordot(gen.densify(a), gen.densify(b), axes=(axa, axb))
-            if not np.array_equal(np.asarray(s, dtype='complex128'), want):
+            try:
+                s = sr.tensordot(a, b, axes=(axa_in, axb_in))
+            except Exception as e:
+                s = None
+                found.append({'op': 'tensordot->scalar', 'a': describe(a), 'b': describe(b), 'axes': [axa_in, axb_in],
+                              'raised': '%s: %s' % (type(e).__name__, e), 'expected': complex(want),
+                              'replay': rl.record('tensordot_scalar', {'a': a, 'b': b}, {'symmetry': sym, 'axes': [axa_in, axb_in]})})
+            if s is not None and not np.array_equal(np.asarray(s, dtype='complex128'), want):
                 found.append({'op': 'tensordot->scalar', 'a': describe(a), 'b': describe(b), 'axes': [axa_in, axb_in],
                               'got': complex(s), 'expected': complex(want),
                               'replay': rl.record('tensordot_scalar', {'a': a, 'b': b}, {'symmetry': sym, 'axes': [axa_in, axb_in]})})
